@@ -2211,6 +2211,11 @@ class tensor:
                 idx = [slice(None, currentShape) for currentShape in self.shape]
                 idx.extend([0] * (len(newsiz) - self.ndims))
                 newData[tuple(idx)] = self.data
+            # Positions counted from the end refer to the extent before it grows
+            key = tuple(
+                _from_end(element, self.shape[dim]) if dim < n else element
+                for dim, element in enumerate(key)
+            )
             # Assign before committing: a value of the wrong size raises here
             # and leaves the tensor as it was
             newData[key] = value
@@ -3116,6 +3121,22 @@ def teneye(ndims: int, size: int, order: MemoryLayout = "F") -> tensor:
         v = np.sum(np.sum(s, axis=1) == ndims // 2)
         A[tuple(zip(*p))] = v / factorial(ndims)
     return A
+
+
+def _from_end(element, size: int):
+    """Resolve positions counted from the end of a mode of the given size."""
+    if isinstance(element, slice):
+        start, stop = element.start, element.stop
+        if start is not None and start < 0:
+            start = max(start + size, 0)
+        if stop is not None and stop < 0:
+            stop = max(stop + size, 0)
+        return slice(start, stop, element.step)
+    if isinstance(element, (int, np.integer)):
+        return element + size if element < 0 else element
+    if isinstance(element, Iterable):
+        return [entry + size if entry < 0 else entry for entry in element]
+    return element
 
 
 def mttv_left(W_in: np.ndarray, U1: np.ndarray) -> np.ndarray:
